@@ -118,6 +118,33 @@ func (w *World) rulesV4ScoreRest(m *scoreModel, modFn *types.Func, add func(ok b
 	for i, l := range mvAssign.Lhs {
 		eqObjs[i] = identObj(info, l)
 	}
+	// the six levels are those of the scored vector: the call is
+	// recv.macroVector() with the method the EQ rules (R04.eq) tabulate, on
+	// Score's own receiver, without arguments. Any other source of the levels
+	// (another function, another object, levels computed from arguments) is not
+	// tied to R04.eq by these rules.
+	{
+		call := mvAssign.Rhs[0].(*ast.CallExpr)
+		mvDecl := p.method("macroVector")
+		recv := p.recvObj(fd)
+		okCall := mvDecl != nil && p.FuncObj[mvObj] == mvDecl && len(call.Args) == 0 && recv != nil
+		if okCall {
+			se, isSel := ast.Unparen(call.Fun).(*ast.SelectorExpr)
+			okCall = isSel
+			if isSel {
+				x := ast.Unparen(se.X)
+				if st, isStar := x.(*ast.StarExpr); isStar {
+					x = ast.Unparen(st.X)
+				}
+				okCall = identObj(info, x) == types.Object(recv) && !assignedIn(info, fd.Body, recv)
+			}
+		}
+		if okCall {
+			add(true, "R04.sibling", "Score.macroVector.call", call, "the six EQ levels are macroVector() of Score's own receiver (the method R04.eq tabulates)")
+		} else {
+			add(false, "R04.sibling", "Score.macroVector.call", call, "the six EQ levels are not obtained by calling macroVector() on Score's own receiver (another function, another object or levels computed from arguments): not tied to the EQ predicates checked by R04.eq — undecided")
+		}
+	}
 	// ---- D: run the prefix for every MacroVector of the table
 	var keys []string
 	for k := range tbl {
